@@ -117,12 +117,12 @@ def r15b(model: Model, rr: RuleResult):
     if ok:
         rr.ok("index_from returns 0xFFFF exactly when is_current_color()")
     else:
-        rr.bad(ifn, ifn.node, "index_from does not map the foreground colour (and only it) to 0xFFFF", construct="Color.index_from: foreground")
+        rr.bad_shape(ifn, ifn.node, "index_from does not map the foreground colour (and only it) to 0xFFFF", construct="Color.index_from: foreground")
     other = [st for st in r if st not in ffff]
     if other and norm(other[0].value) == "palette.index(self)":
         rr.ok("every other colour resolves through palette.index(self) (raises when absent)")
     else:
-        rr.bad(ifn, ifn.node, "non-foreground colours do not resolve through palette.index(self)", construct="Color.index_from: lookup")
+        rr.bad_shape(ifn, ifn.node, "non-foreground colours do not resolve through palette.index(self)", construct="Color.index_from: lookup")
     ic = model.func("colors", "Color.is_current_color")
     cc = model.func("colors", "Color.current_color")
     if "self[:3] == self.current_color()[:3]" in norm(ic.body[-1]) and "cls(-1, -1, -1, alpha=alpha)" in norm(cc.body[-1]):
@@ -144,20 +144,21 @@ def r15c(model: Model, rr: RuleResult):
     cfg = cfg_of(fi)
     raises = [st for st in walk_body(fi) if isinstance(st, ast.Raise)]
     ok = False
+    from ..guards import canon_facts
     for st in raises:
-        facts = [(norm(e), pol) for e, pol in guard_facts(cfg, cfg.node_for(st))]
+        facts = canon_facts(cfg, cfg.node_for(st))
         if ("color.palette_index is not None", True) in facts and ("color.palette_index in indexed_colors", True) in facts:
             ok = True
     store = [s2 for s2 in ast.walk(fi.node) if isinstance(s2, ast.Assign) and norm(s2.targets[0]) == "indexed_colors[color.palette_index]" and norm(s2.value) == "color"]
     if ok and store:
         rr.ok("two different colours declared for one palette index raise ValueError")
     else:
-        rr.bad(fi, fi.node, "conflicting explicit palette indices are no longer rejected", construct="uniq_sort_cpal_colors: conflict check")
+        rr.bad_shape(fi, fi.node, "conflicting explicit palette indices are no longer rejected", construct="uniq_sort_cpal_colors: conflict check")
     emp = [st for st in walk_body(fi) if isinstance(st, ast.If) and norm(st.test) == "not all_colors"]
     if emp and any(isinstance(b, ast.Assign) and norm(b.targets[0]) == "all_colors" and "black" in norm(b.value) for b in emp[0].body):
         rr.ok("an empty colour set is replaced by {black}: the palette is never empty")
     else:
-        rr.bad(fi, fi.node, "the empty-palette guard is gone", construct="uniq_sort_cpal_colors: empty input")
+        rr.bad_shape(fi, fi.node, "the empty-palette guard is gone", construct="uniq_sort_cpal_colors: empty input")
     a = [st for st in walk_body(fi) if isinstance(st, ast.Assert) and norm(st.test) == "not cpal_colors"]
     if a:
         rr.ok("assert: every colour was placed (work queue empty at the end)")
@@ -172,7 +173,7 @@ def r15c(model: Model, rr: RuleResult):
     if sl and norm(sl[0].value) == "max(len(all_colors), max(indexed_colors, default=-1) + 1)":
         rr.ok("slot count = max(#colours, highest explicit index + 1)")
     else:
-        rr.bad(fi, fi.node, "slot count is not max(#colours, highest explicit index + 1): an indexed colour may fall outside the palette", construct=f"cpal_slots = {short(sl[0].value) if sl else None}")
+        rr.bad_shape(fi, fi.node, "slot count is not max(#colours, highest explicit index + 1): an indexed colour may fall outside the palette", construct=f"cpal_slots = {short(sl[0].value) if sl else None}")
     res = [st for st in walk_body(fi) if isinstance(st, ast.Assign) and norm(st.targets[0]) == "result"]
     if res and norm(res[0].value) == "[black] * cpal_slots":
         rr.ok("unfilled gaps are black")
@@ -192,7 +193,7 @@ def r15c(model: Model, rr: RuleResult):
     if good:
         rr.ok("fill loop: slot i takes the indexed colour whose index is i (from the left), else the next unindexed colour (from the right), else stays black")
     else:
-        rr.bad(fi, loop[0] if loop else fi.node, "the slot-filling loop no longer places indexed colours at their own index / unindexed ones in free slots",
+        rr.bad_shape(fi, loop[0] if loop else fi.node, "the slot-filling loop no longer places indexed colours at their own index / unindexed ones in free slots",
                construct="uniq_sort_cpal_colors: fill loop shape")
     key = fi.module.functions.get("uniq_sort_cpal_colors._color_sort_key")
     if key is not None:
@@ -200,7 +201,7 @@ def r15c(model: Model, rr: RuleResult):
         if "return (c.palette_index,)" in t and "return (cpal_slots,) + tuple((-v for v in c[:4]))" in t:
             rr.ok("sort key: indexed colours by index (left), unindexed after them by descending RGBA (popped from the right in ascending order)")
         else:
-            rr.bad(key, key.node, "the colour sort key changed: indexed colours must sort by index before all unindexed ones", construct="_color_sort_key")
+            rr.bad_shape(key, key.node, "the colour sort key changed: indexed colours must sort by index before all unindexed ones", construct="_color_sort_key")
     # var(--colorN, c) parsing
     fs = model.func("colors", "Color.fromstring")
     fcfg = cfg_of(fs)
